@@ -34,6 +34,35 @@ def text_of(logic, t):
     return '(%s %s)' % (op, text_of(logic, t[1]))
 
 
+def fancy_text(logic, t, r):
+    """Like text_of but with operator synonyms (~ | &), irregular blanks and
+    redundant parentheses around atoms; registers the tree it denotes."""
+    def ws():
+        return r.choice([' ', ' ', '  ', '\t', ' \n '])
+
+    def rec(t):
+        op = t[0]
+        if op == 'ap':
+            return '(%s)' % t[1] if r.random() < 0.15 else t[1]
+        if op == 'bool':
+            return 'true' if t[1] else 'false'
+        if op == 'not':
+            return '(%s%s%s)' % (r.choice(['not', '~']), ws(), rec(t[1]))
+        if op in ('or', 'and'):
+            sym = r.choice({'or': ['or', '|'], 'and': ['and', '&']}[op])
+            return '(' + (ws() + sym + ws()).join(rec(c) for c in t[1:]) + ')'
+        if op == 'imply':
+            return '(%s%s-->%s%s)' % (rec(t[1]), ws(), ws(), rec(t[2]))
+        if op in ('U', 'R'):
+            return '(%s%s%s%s%s)' % (rec(t[1]), ws(), op, ws(), rec(t[2]))
+        if op in ('A', 'E'):
+            return '%s%s%s' % (op, ws(), rec(t[1]))
+        return '(%s%s%s)' % (op, ws(), rec(t[1]))
+    s = rec(t)
+    TEXT_TREES[s] = t
+    return s
+
+
 def formula_arg(logic, t, style):
     """The object/text to hand to <logic>.modelcheck for tree t."""
     if style == 'text':
